@@ -9,7 +9,7 @@
            it wrapped, and prop fails (verdict_of, panic_verdict). Witnesses: ConvertZToMinMaxAltitudekey(0,25,35,0,1<<29) = (0, 2^35-1, nil),
            ConvertAltitudekeyToMinMaxZ(0,0,35,0,1<<54) = (0,1023,nil), ConvertZToMinMaxAltitudekey(0,25,10,MinInt64+10,0) panics. *)
 From Coq Require Import ZArith String List Bool.
-From SID Require Import Base Wire AltKeyCore AltKey.
+From SID Require Import Base Wire AltKeyCore AltKey AltKeyList.
 Import ListNotations.
 Open Scope string_scope.
 Open Scope Z_scope.
@@ -211,11 +211,85 @@ Definition d_sequence (args : list val) (obs : val) : verdict :=
   | _, _ => bad_case
   end.
 
+(* ---- the list API ConvertExtendedSpatialIDsToQuadkeysAndAltitudekeys, projected to the altitude keys (AltKeyList.v) ----
+   arguments [ids = [[hZoom; x; y; vZoom; f] ...]; qZoom; kZoom; E; O] with hZoom = qZoom for every ID (one quadkey per ID) and x, y inside the tile
+   grid; observed = the groups in order, each [label; keys] with label = position of the first input ID on the same tile, or VE.
+   Size guard (the API enumerates every key): the invoker refuses, and this entry confirms, a call outside zBaseExponent 0..35,
+   |zBaseOffset| <= 2^27 (there the key ranges are the exact covers, at most 2^max(0,(25-vZoom)-(E-kZoom)) + 1 keys each — no int64 wrap can
+   blow a range up), more than 64 IDs or an estimated total of more than 2048 keys. *)
+Definition as_lid (v : val) : option lid :=
+  match v with VL [VZ h; VZ x; VZ y; VZ vz; VZ f] => Some (h, x, y, vz, f) | _ => None end.
+Definition est_keys (kz E : Z) (i : lid) : Z :=
+  if zoom_ok (lv i) && zoom_ok kz then 2 ^ Z.max 0 ((zorigin - lv i) - (E - kz)) + 2 else 0.
+Definition list_guard (kz E Of : Z) (ids : list lid) : bool :=      (* true = the call is refused *)
+  negb (zoom_ok E) || (2 ^ 27 <? Z.abs Of) || (64 <? Z.of_nat (length ids)) || (2048 <? fold_right Z.add 0 (map (est_keys kz E) ids)).
+Definition id_model64 (kz E Of : Z) (i : lid) : M (result (Z * Z)) :=
+  if zoom_ok (lh i) && zoom_ok (lv i) then z2key64m (lf i) (lv i) kz E Of else ret Err.
+(* Go stops at the first ID that fails: the IDs after it are not evaluated *)
+Fixpoint list_model64 (kz E Of : Z) (ids : list lid) : M (result (list (Z * Z))) :=
+  match ids with
+  | [] => ret (Ok [])
+  | i :: rest =>
+      r <- id_model64 kz E Of i ;;
+      match r with
+      | Err => ret Err
+      | Ok p => t <- list_model64 kz E Of rest ;; ret (match t with Ok l => Ok (p :: l) | Err => Err end)
+      end
+  end.
+Definition as_group (v : val) : option (Z * list Z) :=
+  match v with VL [VZ label; ks] => match as_LZ ks with Some l => Some (label, l) | None => None end | _ => None end.
+Definition obs_groups (v : val) : option (result (list (Z * list Z))) :=
+  match v with
+  | VE _ => Some Err
+  | _ => match as_L v with Some l => match all_opt (map as_group l) with Some gs => Some (Ok gs) | None => None end | None => None end
+  end.
+Definition groups_val (gs : list (Z * list Z)) : val := VL (map (fun g => VL [VZ (fst g); of_LZ (snd g)]) gs).
+Fixpoint groups_eqb (a b : list (Z * list Z)) : bool :=
+  match a, b with
+  | [], [] => true
+  | g :: a', h :: b' => (fst g =? fst h) && list_eqZ (snd g) (snd h) && groups_eqb a' b'
+  | _, _ => false
+  end.
+Definition lid_wellformed (qz : Z) (i : lid) : bool :=
+  negb (zoom_ok (lh i)) || ((lh i =? qz) && (0 <=? lx i) && (lx i <? 2 ^ lh i) && (0 <=? ly i) && (ly i <? 2 ^ lh i)).
+Definition d_list (args : list val) (obs : val) : verdict :=
+  match args with
+  | [VL idvs; VZ qz; VZ kz; VZ E; VZ Of] =>
+      match all_opt (map as_lid idvs) with
+      | Some ids =>
+          if negb (forallb (lid_wellformed qz) ids) then bad_case
+          else match obs with
+          | VS "oversize" => if list_guard kz E Of ids then mkv true true "skipped" VNil else bad_case
+          | _ =>
+            if list_guard kz E Of ids then bad_case
+            else
+              let m := if qcheck_list qz kz then list_model64 kz E Of ids else ret Err in
+              match obs, go_result m with
+              | VPanic, None => panic_verdict true
+              | VPanic, Some _ => bad_case
+              | _, None => mkv false false "-" VPanic
+              | _, Some mr =>
+                  match obs_groups obs with
+                  | Some o =>
+                      let mg := match mr with Ok rs => Ok (groups ids rs) | Err => Err end in
+                      let corr := match mg, o with Ok a, Ok b => groups_eqb a b | Err, Err => true | _, _ => false end in
+                      verdict_of corr (list_prop qz kz E Of ids o) (exact64 m)
+                                 (match mg with Ok a => groups_val a | Err => VE VNil end)
+                  | None => bad_case
+                  end
+              end
+          end
+      | None => bad_case
+      end
+  | _ => bad_case
+  end.
+
 Definition table_C12 : table :=
   (plain_table ++
    [("RoundTripZ", fun _ => d_roundtrip true);
     ("RoundTripK", fun _ => d_roundtrip false);
-    ("CallSequence", fun _ => d_sequence)])%list.
+    ("CallSequence", fun _ => d_sequence);
+    ("ListAltitudekeys", fun _ => d_list)])%list.
 
 (* a step is judged by the very dispatch entry that judges a standalone case of the same function *)
 Lemma step_verdict_standalone fn args o : In fn ["ConvertZToMinMaxAltitudekey"; "ConvertAltitudekeyToMinMaxZ"; "convertZToMinAltitudekey"; "validateIndexExists"] ->
@@ -256,6 +330,21 @@ Proof.
   destruct (forallb v_corr vs); cbn [andb]; [|discriminate]. destruct (negb (forallb v_prop vs)); cbn [andb]; [|discriminate].
   destruct (forallb _ vs) eqn:X; [|discriminate]. intros _. split; [reflexivity|]. intros v Hv.
   rewrite forallb_forall in X. specialize (X v Hv). apply orb_true_iff in X. destruct X as [X|X]; [now left|right; now apply String.eqb_eq].
+Qed.
+
+(* with no wrap the int64 list model is the unbounded per-ID map of AltKeyList.v *)
+Lemma id_model64_exact kz E O i r : id_model64 kz E O i = Some (r, true) -> r = id_range kz E O i.
+Proof.
+  unfold id_model64, id_range. destruct (zoom_ok (lh i) && zoom_ok (lv i)); [apply z2key64m_exact|intros H; now apply ret_inv in H].
+Qed.
+Lemma list_model64_exact kz E O ids r : list_model64 kz E O ids = Some (r, true) -> r = list_ranges kz E O ids.
+Proof.
+  revert r. induction ids as [|i rest IH]; intros r H; cbn [list_model64 list_ranges] in *.
+  - now apply ret_inv in H.
+  - apply bind_inv in H. destruct H as (ri & Hi & H). apply id_model64_exact in Hi. subst ri.
+    destruct (id_range kz E O i) as [p|]; [|now apply ret_inv in H].
+    apply bind_inv in H. destruct H as (t & Ht & H). apply IH in Ht. subst t. apply ret_inv in H. subst r.
+    destruct (list_ranges kz E O rest); reflexivity.
 Qed.
 
 Lemma check_conv_bad_zoom s i t r : zooms_okb s t = false -> check_conv s i t r = match r with Err => true | Ok _ => false end.
